@@ -377,6 +377,13 @@ pub fn craft_exact(n: usize, target: i64, style: u32, rng: &mut ChaCha20Rng) -> 
                     let j = rng.gen_range(0..=k);
                     v.swap(k, j);
                 }
+                if t % 2 == 0 {
+                    // the LAST coefficient is zero (its negative zero is a separate code path)
+                    if let Some(j) = (0..n).find(|&j| v[j].abs() < 128) {
+                        v.swap(j, n - 1);
+                        v[n - 1] = 0;
+                    }
+                }
                 v
             }
             1 => {
